@@ -57,6 +57,8 @@ Calls ==
     \* a partial that rebinds its own argument and hands it on: the new value is what every later read sees
     Render_(S("p3"), <<Arg("a", S("i"))>>), RenderWith(S("p3"), S("w"), "a", <<>>), RenderFor(S("p3"), Range(1, 2), "a", <<>>),
     Include_(S("p3"), <<Arg("a", S("i"))>>),
+    \* a partial whose name starts with a capital: names are compared as they are spelled, in every store
+    Include_(S("Zed"), <<>>), Render_(S("zed"), <<>>),
     \* the loop object of the for-as form knows nothing of the caller's loops (the callers wrap every call in a loop as well)
     RenderFor(S("p6"), Range(1, 2), "a", <<>>), Render_(S("p6"), <<>>),
     \* a name is looked up exactly as spelled: padded names are other names (and unknown here), under every policy
@@ -80,7 +82,7 @@ Callers ==
   {<<W(n1), W(n2), W(n3), Txt("$")>> : n1 \in {"p", "q"}, n2 \in {"p", "q", "broken"}, n3 \in {"p", "q"}}
 
 Parts(body) ==
-  [n \in {"p", "p2", "q.liquid", "broken", "broken.liquid", "p.liquid", "empty", "blank", "p3", "p4", "p5", "p6", "wrap"} |->
+  [n \in {"p", "p2", "q.liquid", "broken", "broken.liquid", "p.liquid", "empty", "blank", "p3", "p4", "p5", "p6", "wrap", "Zed"} |->
      CASE n = "p" -> [ok |-> TRUE, body |-> body]
        [] n = "p2" -> [ok |-> TRUE, body |-> P2Body]
        [] n = "q.liquid" -> [ok |-> TRUE, body |-> <<Txt("Q"), Read("a")>>]
@@ -91,6 +93,7 @@ Parts(body) ==
                                               Assign_("a", Lit(BoolV(FALSE))), Read("a"), Assign_("x", Lit(NilV)), Read("x")>>]
        [] n = "p6" -> [ok |-> TRUE, body |-> <<[t |-> "if", cond |-> [c |-> "truthy", x |-> Var("forloop", <<S("parentloop")>>)], then |-> <<Txt("P")>>, else |-> <<Txt("-")>>],
                                               [t |-> "if", cond |-> [c |-> "truthy", x |-> V("forloop")], then |-> <<Out(Dot("forloop", "index"))>>, else |-> <<Txt("n")>>]>>]
+       [] n = "Zed" -> [ok |-> TRUE, body |-> <<Txt("Z")>>]
        [] n = "wrap" -> [ok |-> TRUE, body |-> <<Txt("["), Render_(V("which"), <<>>), Txt("]")>>]
        [] n = "p4" -> [ok |-> TRUE, body |-> <<Out(V("a")), [t |-> "continue"], Txt("!")>>]
        [] n = "p5" -> [ok |-> TRUE, body |-> <<Out(V("a")), [t |-> "break"], Txt("!")>>]
